@@ -333,9 +333,10 @@ func drawScenarios() map[string][]op {
 			ops = append(ops, op{kind: "set", x: x, r: 'a'}, op{kind: "set", x: x, r: '世', st: 1})
 		}
 		ops = append(ops, op{kind: "set", x: 2, r: 'e', comb: []rune{0x0301}}, op{kind: "set", x: 1, r: 0x2603}, op{kind: "set", x: 0, r: 0xe9, st: 3},
-			op{kind: "fill", r: 'b', st: 2}, op{kind: "clear"}, op{kind: "setstyle", st: 1}, show, sync)
+			op{kind: "fill", r: 'b', st: 2}, op{kind: "clear"}, op{kind: "setstyle", st: 1})
 		// combining lists holding what is no combining mark: a control character, a C1 control, a non-character
 		ops = append(ops, op{kind: "set", x: 1, r: 'a', comb: []rune{0x07}}, op{kind: "set", x: 3, r: 'e', comb: []rune{0x0301, 0x9b, 0xfffe}})
+		ops = append(ops, show, sync) // (the last two: W2 starts with ops[len-2])
 		out["W-wide-4x1"] = ops
 		out["W2-wide-from-shown-4x1"] = ops // the same alphabet from a screen that has been shown once (non-initial start state)
 	}
